@@ -291,3 +291,29 @@ macro_rules! big_enum {
     )*};
 }
 big_enum! { E127, 127; E128, 128; E129, 129; }
+
+// enums with explicit discriminants that are not ascending in declaration order: serde numbers
+// variants by declaration position, never by discriminant
+#[derive(Serialize, Clone, Debug, postcard_derive_ws::MaxSize, postcard_derive_ws::Schema)]
+pub enum Level {
+    High = 10,
+    Mid = 5,
+    Low = 1,
+}
+#[derive(Serialize, Clone, Debug, postcard_derive_ws::MaxSize, postcard_derive_ws::Schema)]
+#[repr(u8)]
+pub enum Packet {
+    Data(u32, u32) = 2,
+    Ack = 1,
+    Name { id: u8 } = 0,
+}
+impl Corp for Level {
+    fn mty() -> String { "(enum () () ())".into() }
+    fn cands(_: &mut Rng) -> Vec<Self> { vec![Level::High, Level::Mid, Level::Low] }
+    fn tight() -> bool { false }
+}
+impl Corp for Packet {
+    fn mty() -> String { "(enum ((int u32) (int u32)) () ((int u8)))".into() }
+    fn cands(r: &mut Rng) -> Vec<Self> { vec![Packet::Data(u32::MAX, u32::MAX), Packet::Data(3, r.next() as u32), Packet::Ack, Packet::Name { id: 255 }] }
+    fn tight() -> bool { false }
+}
